@@ -90,7 +90,7 @@ def run(prog, chk):
                     return 1 if isinstance(v, int) and 48 <= v <= 57 else 0
             return TOP
 
-        I = Interp(fd, inputs={sp: Ptr("s"), dp: Ptr("d"), lp: Ptr("l"), sp + "[0]": sc}, call_model=succeed_model(prog, ov),
+        I = Interp(fd, inputs={sp: Ptr("s"), dp: Ptr("d"), lp: Ptr("l"), "s[0]": sc}, call_model=succeed_model(prog, ov),
                    on_unknown="stop", prog=prog, loop_bound=3, macro_models={"isdigit": mm_isdigit})
         paths = I.run()
         if len(paths) != 1 or paths[0].undetermined:
